@@ -168,13 +168,17 @@ Definition key4_eqb (i j : ixn) : bool :=
   (String.eqb (lower (i_sns i)) (lower (i_sns j)) && String.eqb (lower (i_sname i)) (lower (i_sname j))
    && String.eqb (lower (i_dns i)) (lower (i_dns j)) && String.eqb (lower (i_dname i)) (lower (i_dname j)))%bool.
 
+(* the "id" index is a UUIDFieldIndex: it parses the hex digits, so IDs are found case-insensitively
+   (the row keeps the spelling it was written with) *)
+Definition id_eqb (a b : string) : bool := String.eqb (lower a) (lower b).
+
 Fixpoint replace_by_id (i : ixn) (t : list ixn) : list ixn :=
   match t with
   | [] => [i]
-  | j :: t' => if String.eqb (i_id j) (i_id i) then i :: t' else j :: replace_by_id i t'
+  | j :: t' => if id_eqb (i_id j) (i_id i) then i :: t' else j :: replace_by_id i t'
   end.
 
-(* legacyIntentionSetTxn *)
+(* legacyIntentionSetTxn; the duplicate test compares the ID strings exactly (dupIxn.ID != ixn.ID) *)
 Definition legacy_set (t : list ixn) (i : ixn) : werr * list ixn :=
   if String.eqb (i_id i) "" then (WMissingID, t) else
   let i' := set_prec i in
@@ -302,7 +306,7 @@ Definition cmatch_dst (st : list entry) (n : string) : list ixn :=
                                 | None => []
                                 end) (match_names n)).
 
-(* readSourceIntentionsFromConfigEntriesTxn, target type "service", no gateway services registered:
+(* readSourceIntentionsFromConfigEntriesTxn, no service-defaults entry with a Destination block (see [cmatch_src_k] below for those):
    the index finds the entries that have a LOCAL source named m; the loop then keeps every source
    of such an entry whose NAME is m. *)
 Definition has_local_src (e : entry) (m : string) : bool :=
@@ -313,6 +317,19 @@ Definition cmatch_src (st : list entry) (n : string) : list ixn :=
      flat_map (fun e => if has_local_src e m
                         then map (to_ixn e) (filter (fun s => String.eqb (s_name s) m) (e_srcs e))
                         else []) st) (match_names n)).
+
+(* serviceIntentionsToGatewayServiceKind + intentionMatches, with no instance of the destination registered
+   in the catalog: [dk] = names of the service-defaults entries that carry a Destination block (looked up
+   through the case-folding config-entry index).  Target type "service" hides the entries of such names from
+   source matches; target type "destination" shows only those and the wildcard-destination entry. *)
+Definition is_dest_kind (dk : list string) (n : string) : bool := existsb (fun k => name_eqb k n) dk.
+
+Definition visible (dk : list string) (dest_target : bool) (e : entry) : bool :=
+  if dest_target then (is_dest_kind dk (e_name e) || is_wild (e_name e))%bool
+  else negb (is_dest_kind dk (e_name e)).
+
+Definition cmatch_src_k (dk : list string) (dest_target : bool) (st : list entry) (n : string) : list ixn :=
+  cmatch_src (filter (visible dk dest_target) st) n.
 
 (* configIntentionsListTxn *)
 Definition call (st : list entry) : list ixn := flat_map to_ixns st.
